@@ -27,7 +27,49 @@ def many_conditions(rng, n):
             for _ in range(rng.rng(1, 2)):
                 h2 = ('cat', ('c', 97 + rng.below(4)), ('c', 101 + rng.below(3)))
                 rules.append({'head': h2, 'bol': rng.chance(15), 'scs': s[:1], 'trail': None})
-    return {'csize': 256, 'caseins': False, 'scs': scs, 'rules': rules, 'scoped': True}
+    prog = {'csize': 256, 'caseins': False, 'scs': scs, 'rules': rules, 'scoped': True}
+    if n >= 2 and rng.chance(60):
+        prog['scnames'] = colliding_names(rng, n)
+    return prog
+
+
+def _flex_hash(name, size=101):
+    h = 0
+    for ch in name.encode():
+        h = ((h << 1) + ch) % size
+    return h
+
+
+def colliding_names(rng, n):
+    """Names for some of the conditions 2..n+1: pairs (X, X<suffix>) with the same value of flex's symbol hash, the shorter one
+    declared first, and names differing in one character only."""
+    names = {}
+    free = list(range(2, n + 2))
+    letters = "ABCDEFGHJKLMNPQRSTUVWXYZ_0123456789"
+    for _ in range(rng.rng(1, 3)):
+        if len(free) < 2:
+            break
+        i = free.pop(rng.below(len(free)))
+        j = free.pop(rng.below(len(free)))
+        i, j = min(i, j), max(i, j)
+        base = rng.pick(["STR", "COM", "C", "S", "STRING", "Q", "IN"]) + ("" if not names else str(len(names)))
+        want = _flex_hash(base)
+        found = None
+        for a in letters:
+            for b in letters:
+                for c in [""] + list(letters):
+                    cand = base + "_" + a + b + c
+                    if _flex_hash(cand) == want:
+                        found = cand
+                        break
+                if found:
+                    break
+            if found:
+                break
+        if found:
+            names[i] = base
+            names[j] = found
+    return names
 
 
 def build_cases(rng, tier):
